@@ -1,6 +1,7 @@
 """C06 - samplers draw from the distribution their log-likelihood scores."""
 import math
 
+import itertools
 import numpy as np
 
 import chi
@@ -147,6 +148,50 @@ def case_em(B, cfg):
                 B.eq('%s: sampler variance = density variance' % label,
                      V * (-B.diff(dL, y)), 1, tol=3e-2)
             B.eq('%s: sampler law = density' % label, L, ref, tol=2e-2)
+
+
+def case_em_reduced(B, cfg):
+    """an error model with some parameters fixed draws from the model it
+    scores: its sampler is the wrapped sampler, and its density the wrapped
+    density, at the fixed values merged with the free ones position by
+    position (sampler against sampler: independent of how well the wrapped
+    sampler matches its own density)"""
+    name, nt, ns, fix = (cfg['model'], cfg['n_times'], cfg['n_samples'],
+                         cfg['fix'])
+    full = refs.error_model(name)
+    n = refs.em_nparams(name)
+    par = B.vars('sigma', n)
+    yb = B.vars('ybar', nt)
+    refs.em_assume_support(B, name, par, yb)
+    red = chi.ReducedErrorModel(refs.error_model(name))
+    names = red.get_parameter_names()
+    red.fix_parameters({names[k]: par[k] for k in fix})
+    free = [p for k, p in enumerate(par) if k not in fix]
+    B.fact('n_parameters after fixing', red.n_parameters() == len(free),
+           repr(red.n_parameters()))
+    y = B.vars('y', nt)
+    if name == 'LogNormal':
+        for v in y:
+            B.assume(v > 0)
+    for call in range(cfg.get('calls', 1)):
+        B.new_rng()
+        Sr = red.sample(list(free), yb, n_samples=ns, seed=3 + call)
+        B.new_rng()
+        Sf = full.sample(list(par), yb, n_samples=ns, seed=3 + call)
+        B.fact('call %d: sample shape' % call, np.shape(Sr) == np.shape(Sf),
+               repr(np.shape(Sr)))
+        if np.shape(Sr) != np.shape(Sf):
+            return
+        for t in range(nt):
+            for k in range(ns):
+                B.eq('call %d, time %d, draw %d: reduced sampler = wrapped '
+                     'sampler at the merged parameters' % (call, t, k),
+                     Sr[t][k], Sf[t][k])
+        Lr = red.compute_pointwise_ll(list(free), yb, y)
+        Lf = full.compute_pointwise_ll(list(par), yb, y)
+        for t in range(nt):
+            B.eq('call %d, time %d: reduced density = wrapped density at '
+                 'the merged parameters' % (call, t), Lr[t], Lf[t])
 
 
 # ---------------------------------------------------------------- populations
@@ -466,6 +511,15 @@ def jobs(tier):
                 out.append(('em', 'case_em', dict(
                     model=name, n_times=nt, n_samples=ns),
                     {'replay_candidates': 1}))
+    for name in refs.ERROR_MODELS:
+        n = refs.em_nparams(name)
+        subsets = [[]] + [list(c) for r in range(1, n + 1)
+                          for c in itertools.combinations(range(n), r)]
+        for fix in subsets:
+            for nt, ns in ([(2, 1), (1, 2)] if q else [(2, 2), (3, 1)]):
+                out.append(('em_reduced', 'case_em_reduced', dict(
+                    model=name, n_times=nt, n_samples=ns, fix=fix,
+                    calls=2), {'diffcheck': False, 'replay_candidates': 1}))
     for kind in ps.KINDS:
         for nd in ([1, 2] if q else [1, 2, 3]):
             for ns in ([1, 2] if q else [1, 2, 3]):
